@@ -8,8 +8,7 @@ NA = {
  "C01": "Type soundness quantifies over every accepted program; it is a meta-theorem about compiler.rs + typing.rs + narrowing.rs + the VM, not a postcondition of any function; whole-repository proof is not tractable (DESIGN.md §5).",
  "C02": "Needs an independent reference evaluator for docs/spec.md (a model, which this technique family excludes) and an inductive argument over the whole compiler.",
  "C03": "Schedule/worker-count independence: the installed Verus workflow has no thread or channel model and Kani has no threads; not a per-function contract.",
- "C04": "Exactly-once/FIFO/no-lost-wake-up is a whole-history protocol property across Executor/Worker/Environment. Function-level pieces are proved under C06 (notify_message appends the injected message at the back of the mailbox and wakes the receiver exactly once; handle_send hands the value over in an Action), but delivery order and wake-ups are decided by worker.rs / environment.rs event loops over mpsc channels, for which this technique has no model.",
- "C05": "The select helpers around the core are proved as parts of C06/C15 (complete_select, the timeout predicate, the awaited-process lookup, lazy start time, continuation), but the core of the property is not within reach: which receive source is ready is decided by handle_select_receive / scan_mailbox_for_message / call_receive_function, which walk a VecDeque mailbox with enumerate().skip(), use let-chains with else, and run the filter through handle_call (a call through a function pointer, rejected by Verus). A priority claim relative to an assumed readiness oracle would prove the for loop and assume the property - too thin to claim.",
+ "C04": "Exactly-once/FIFO/no-lost-wake-up is a whole-history protocol property across Executor/Worker/Environment. Function-level pieces are proved under C05/C06 (a select that finds nothing ready parks the process; notify_message appends the injected message at the back of the mailbox and wakes the receiver exactly once; handle_send hands the value over in an Action), but delivery order and wake-ups are decided by worker.rs / environment.rs event loops over mpsc channels, for which this technique has no model.",
  "C07": "Well-formedness of emitted bytecode is a property of the 4.6 kLoC emitter; only the jump offset encode/decode pair is in reach - too thin to claim.",
  "C08": "Runtime type tests are table lookups; their correctness reduces to is_compatible (C09) and closure/HashMap-based table builders outside the dialect.",
  "C09": "check_type_relation threads &mut HashSet/&mut Vec through iter().all/any closures and let-chains (outside Verus); its specification needs a value-enumeration oracle (a model); CBMC cannot carry String-keyed type tables.",
@@ -22,17 +21,18 @@ NA = {
  "C20": "The numeric tower is written in Quiver (std/num.qv); no deductive verifier for Quiver exists here. The integer builtins it leans on are covered under C12.",
 }
 LEVEL = {
+ "C05": ("proof", "One entry of the Select instruction, function by function on the real executor code (handle_select, initialize_select, process_select_sources, handle_select_receive, handle_receive_result, scan_mailbox_for_message, call_receive_function, complete_select, the timeout / awaited-process / start-time / continuation helpers), for all states: first entry installs the popped sources in written order with one zero cursor per receive source, asks for the awaited processes first and starts the timeouts' clock only once they have answered; on every later entry the select is decided at the first source in written order that is ready - no timeout written before it has elapsed (measured from the fixed start time, clamped to [0, i64::MAX] ms), no awaited process written before it has a recorded result, no receive source written before it has a message its type admits from its cursor on; a timeout yields nil, a process its recorded result, a body-less receiver the earliest admissible message, a filtering receiver has its body started on that message and on re-entry any non-nil verdict yields the message itself (never the verdict) while nil moves that source's cursor past it; the taken message leaves the mailbox and all others keep their order; nothing ready parks the process with the mailbox untouched; and on every outcome the heap counts move exactly as much as what the process roots. Deductive proof is the right level because the failures are at single interleavings of arrivals with re-entries (one such leak, D9, was found at a precondition and repaired). Not decided: that the cursor invariant (everything before a cursor was inadmissible or rejected) holds across entries and arrivals, the filter body's own execution (handle_call is assumed, A-call), which concrete types a receiver admits (A-compat), error propagation from a failed awaited process (step / worker.rs), the expiry wake-up (check_expired_timeouts, next_timeout_ms) and the cross-worker await answers (environment.rs).", "DESIGN.md §4 C05"),
  "C12": ("proof", "Every pure builtin except integer_sin/cos (f64) - 15 integer, 20 binary, 11 vector builtins - and the binary rope they are built on (incl. find_byte and the byte iterator) is proved total (no panic for any argument) and equal to a mathematical reference model stated over the abstract byte view: unbounded integers, flat byte sequences, big-endian numbers for the bit-field builtins, lane-wise arithmetic for the vector kernels, FNV-1a as a fold; unbounded in input size and rope shape. One branch of binary_shift is excluded by a documented verifier limit (function reported as partial, not counted). Deductive proof is the right level because the defects live at single representation-boundary inputs that sampling does not reach (six were found and repaired).", "DESIGN.md §4 C12"),
- "C15": ("proof", "Second sentence of the property only (workers never panic): Verus's implicit safety obligations (overflow, bounds, unwrap, division by zero, shift, reachable panic!/unreachable!/debug_assert!) are discharged for every function under contract - all builtins, the rope, the heap choke points, 18 of 19 hot instruction handlers, the cold-path handlers, cross-heap transfer - for all arguments and all states satisfying the stated well-formedness; for the VM units every accounting obligation counts too, because a count that drifts is a debug-build worker panic. Containment/propagation to awaiters is schedule-level and not decided; handle_call, step and the select core are outside the dialect.", "DESIGN.md §4 C15"),
- "C06": ("proof", "Function-level heap accounting: allocator representation invariant, retain/release exact against a ghost occurrence count, choke points, 18 hot handlers and 17 cold-path functions balance counts against what they store; no premature free, no live slot handed out, content preserved by materialize; cross-heap transfer proved end to end (extract_heap_data, inject_heap_data, spawn_process and the transfer theorem: what is sent reads back the same bytes, in slots not live before, counted exactly as rooted, one allocation per incoming binary). The global equation over all roots of all processes and all schedules, handle_call, step and the worker-side glue are not decided.", "DESIGN.md §4 C06"),
+ "C15": ("proof", "Second sentence of the property only (workers never panic): Verus's implicit safety obligations (overflow, bounds, unwrap, division by zero, shift, reachable panic!/unreachable!/debug_assert!) are discharged for every function under contract - all builtins, the rope, the heap choke points, 18 of 19 hot instruction handlers, the cold-path handlers, the select machinery, cross-heap transfer - for all arguments and all states satisfying the stated well-formedness; for the VM units every accounting obligation counts too, because a count that drifts is a debug-build worker panic. Containment/propagation to awaiters is schedule-level and not decided; handle_call (assumed for the one branch a select filter takes) and step are outside the dialect.", "DESIGN.md §4 C15"),
+ "C06": ("proof", "Function-level heap accounting: allocator representation invariant, retain/release exact against a ghost occurrence count, choke points, 18 hot handlers, 17 cold-path functions and the 7 functions of the select machinery balance counts against what they store (stack, locals, select state, mailbox); no premature free, no live slot handed out, content preserved by materialize; cross-heap transfer proved end to end (extract_heap_data, inject_heap_data, spawn_process and the transfer theorem: what is sent reads back the same bytes, in slots not live before, counted exactly as rooted, one allocation per incoming binary). The global equation over all roots of all processes and all schedules, handle_call, step and the worker-side glue are not decided.", "DESIGN.md §4 C06"),
  "C13": ("proof", "The VM's comparator only: Executor::values_equal (what pinned matches, literal matches and repeated binders execute through the Equal instruction) returns exactly the property's structural equality - equal integers, byte-equal binaries whatever their storage (constant table, heap rope of any shape), same canonical tuple shape and pairwise-equal fields, same definition and pairwise-equal captures, same process, same ref, different kinds differ - for all values of any depth, and that relation is proved reflexive (on valid values), symmetric and transitive; handle_equal pushes the first value exactly when all compared values are structurally equal to it, nil otherwise, and keeps the heap accounting balanced. Not decided: that the compiler / program updates give equal shapes equal canonical ids on every path (assumption A-canon; seeded change R4b lives there), uniqueness of minted refs across workers, and resource handles (the property is silent about them).", "DESIGN.md §4 C13"),
  "C16": ("proof", "VM mechanism of tail calls: executing TailCall never adds a frame, resets the frame's locals to base (+captures), changes the operand stack by exactly 0/-1 and releases what it drops; release queues what reaches count 0 and process_pending_free empties the queue and frees every queued slot still at count 0 at the next step; for all states. Compiler-side residue (what is emitted around ^) and frame teardown in step are not decided.", "DESIGN.md §4 C16"),
 }
-NOTE = "Trusted: Verus 0.2026.09.13 + bundled Z3 4.16.0; vstd's specs of std; the assumed contracts listed by the mechanical scan in evidence.coverage.trusted_base (BigInt arithmetic = mathematical integers, derived Clone returns an equal value, Display/format is total, usize is 64 bit, dropping has no observable effect, a handful of std functions and iterator pieces vstd does not specify, the process table as an abstract map); the extractor's closed list of syntactic normalisations N1-N16 and ghost-only splice anchors S1-S10 (DESIGN.md §2.1), each logged and undone by the erasure self-check on every run. Bounded stand-ins on the real code (boundary differential, transfer differential, program corpus) run only when the deductive check is undecided or in the thorough tier, are labelled bounded and never counted as proved."
+NOTE = "Trusted: Verus 0.2026.09.13 + bundled Z3 4.16.0; vstd's specs of std; the assumed contracts listed by the mechanical scan in evidence.coverage.trusted_base (BigInt arithmetic = mathematical integers, derived Clone returns an equal value, Display/format is total, usize is 64 bit, dropping has no observable effect, a handful of std functions and iterator pieces vstd does not specify, the process table as an abstract map, handle_call's Function branch, the receive-type test as an uninterpreted predicate); the extractor's closed list of syntactic normalisations N1-N16 and ghost-only splice anchors S1-S11 (DESIGN.md §2.1), each logged and undone by the erasure self-check on every run. Bounded stand-ins on the real code (boundary differential, transfer differential, program corpus) run only when the deductive check is undecided or in the thorough tier, are labelled bounded and never counted as proved."
 TECH = "contract-based deductive verification (Verus/Z3) of functions re-extracted mechanically from /repo on every run"
 
 def main():
-    claimed = [p for p in ("C06", "C12", "C13", "C15", "C16") if any(os.path.exists(extract.unit_path(u)) for u in props.PROPS[p]["units"]) and p in (sys.argv[1:] or ["C06","C12","C13","C15","C16"])]
+    claimed = [p for p in ("C05", "C06", "C12", "C13", "C15", "C16") if any(os.path.exists(extract.unit_path(u)) for u in props.PROPS[p]["units"]) and p in (sys.argv[1:] or ["C05","C06","C12","C13","C15","C16"])]
     checks = []
     for p in claimed:
         cat, text, ref = LEVEL[p]
@@ -48,7 +48,7 @@ def main():
             "technique": TECH,
         })
     na = [{"property_id": k, "reason": v} for k, v in sorted(NA.items())]
-    for p in ("C06", "C12", "C13", "C15", "C16"):
+    for p in ("C05", "C06", "C12", "C13", "C15", "C16"):
         if p not in claimed:
             na.append({"property_id": p, "reason": "check not built yet in this revision of /verif (planned: DESIGN.md §4)"})
     man = {
